@@ -2142,7 +2142,11 @@ func c06ParamsCompared(r *core.Run, rule string, ro *muxRoles) {
 				}
 				return "", nil
 			}
-			for _, b := range fn.Blocks {
+			var blocks []*ssa.BasicBlock
+			for _, h := range p.Helpers(fn) { // the comparison may sit in a helper (sameParam(a, b))
+				blocks = append(blocks, h.Blocks...)
+			}
+			for _, b := range blocks {
 				for _, in := range b.Instrs {
 					bo, ok := in.(*ssa.BinOp)
 					if !ok || (bo.Op != token.NEQ && bo.Op != token.EQL) {
